@@ -305,10 +305,26 @@ def _association_replay_plan(ob):
 
 # =========================================================================== SOCKS listener handshake (after the request is read)
 
+def _drop_closes_records(ck):
+    """representation gate for the handshake-failure obligations: they read "ends routed or in an error state" as "enqueue or
+    ContextRefOps::on_error was called", which is what the property demands only while `impl Drop for Context` queues the record as it
+    is.  A tree whose Drop writes a state / an error text into the record itself closes given-up connections there: the obligations
+    do not apply to that representation and are left out (stated in the evidence), instead of alarming on a tree that may hold."""
+    for f in ck.db.by_method.get('drop', []):
+        if f.params and re.search(r'(^|[ :])Context$', f.params[0][1].strip()):
+            if re.search(r'ContextState::|::set_state|::set_error', '\n'.join(f.raw_lines)):
+                note = 'handshake-failed connections: `impl Drop for Context` writes the record\'s state itself on this tree; "enqueue or on_error" is not the criterion there (not decided)'
+                if note not in ck.out_of_scope:
+                    ck.out_of_scope.append(note)
+                return True
+    return False
+
+
 def spec_socks_handshake(ck, lifecycle=False):
     fn = ck.find(lambda: ck.db.method('SocksListener', 'handshake'), 'SocksListener::handshake')
     if fn is None:
         return
+    by_drop = lifecycle and _drop_closes_records(ck)
     ex = ck.engine(loop_bound=4)
     ex.benign_havoc = harness.IRRELEVANT
     st = State()
@@ -369,7 +385,7 @@ def spec_socks_handshake(ck, lifecycle=False):
         if o.status != 'returned':
             continue
         T = [e[0] for e in o.trace]
-        if lifecycle and 'create_context' in T:
+        if lifecycle and 'create_context' in T and not by_drop:
             # C16: a connection that was registered (it has an id, it is listed as live) and is given up during the handshake ends in
             # exactly one terminal state with the error text -- on_error records both; a connection handed to the dispatcher is the
             # dispatcher's (its terminal state is decided there).  Which step failed names the obligation.
@@ -407,6 +423,8 @@ def spec_http_handshake_lifecycle(ck):
     fallible step is a free boolean."""
     fn = ck.find(lambda: ck.db.free('h11c_handshake'), 'h11c_handshake')
     if fn is None:
+        return
+    if _drop_closes_records(ck):
         return
     ex = ck.engine(loop_bound=4, call_depth=8)
     ex.benign_havoc = harness.IRRELEVANT
